@@ -1070,6 +1070,10 @@ def norm_pc(pc):
     for t, pol in pc:
         if t[0] == 'not':
             t, pol = t[1], not pol
+        while t[0] == 'call' and t[1] == 'builtins.bool' and len(t[3]) == 1:
+            t = t[3][0][1]      # bool(x) as a condition is x
+            if t[0] == 'not':
+                t, pol = t[1], not pol
         if is_const(t):
             continue
         if t[0] == 'and' and pol:
